@@ -299,6 +299,32 @@ def _known_corpus(ctx, G, cat):
             ctx.violation("sfdl-named-list:known-deviation-replaced-by-a-different-one", wit)
 
 
+_MODULE_NAMES: list = []
+
+
+def _twins(ctx, G, cat, rng, names, n):
+    """Two definitions that differ only in where the line break ends a comment (so a member is commented out in one of them):
+    same text after whitespace normalisation, different structure. Each must be read on its own, in either order."""
+    for i in range(n):
+        items = rng.sample(names, 4)
+        note = rng.choice(["note", "x", "was:", "todo -"])
+        outer_open = rng.random() < 0.5
+        def text(commented):
+            # "< L <A> # note <B>\n <C> <D> >"  vs  "< L <A> # note\n <B> <C> <D> >"
+            a, b, c, d = (f"< {x} >" for x in items)
+            body = f"{a} # {note} {b}\n {c} {d}" if commented else f"{a} # {note}\n {b} {c} {d}"
+            return f"< L {body} >"
+        full = ("list", None, [("item", x) for x in items])
+        reduced = ("list", None, [("item", x) for x in (items[0], items[2], items[3])])
+        pair = [(text(False), full), (text(True), reduced)]
+        if i % 2:
+            pair.reverse()
+        for t, ast in pair:
+            ctx.count("oracle.comment_twins")
+            _shape_case(ctx, G, ast, t, cat, "twin")
+
+
+
 def _mutants(ctx, G, ast, rng, names_set):
     text = render(ast, rng, fancy=False)
     # structural '>' positions (no comments in this rendering)
@@ -324,8 +350,8 @@ def _mutants(ctx, G, ast, rng, names_set):
     walk(ast)
     if items:
         victim = rng.choice(items)
-        bogus = rng.choice(["FOO", "SVIDX", "svid", "Mdln", "L2", "LL", "DATA", "XYZZY", "A", "U4", "ITEM1"])
-        if bogus in names_set:
+        bogus = rng.choice(["FOO", "SVIDX", "svid", "Mdln", "L2", "LL", "DATA", "XYZZY", "A", "U4", "ITEM1"] + _MODULE_NAMES)
+        if bogus in names_set or bogus.upper() in names_set:
             return
         marker = "\x00"
         done = [False]
@@ -354,7 +380,11 @@ def run(ctx):
     rng = ctx.rng
     cat = _catalogue()
     names = sorted(cat)
-    names_set = set(names) | {n for n in dir(__import__("secsgem.secs.data_items", fromlist=["x"]))}
+    DI = __import__("secsgem.secs.data_items", fromlist=["x"])
+    # the data item names are exactly the item classes of the package; everything else the package namespace contains (sub-modules,
+    # base classes, dunder attributes) is an *unknown data item name* like any other word
+    names_set = set(names) | {n for n, c in inspect.getmembers(DI, inspect.isclass) if issubclass(c, DI.DataItemBase) and c is not DI.DataItemBase}
+    _MODULE_NAMES[:] = sorted(n for n in dir(DI) if n not in names_set and n.upper() not in names_set)[:40]
     # the shipped definitions (enumerated)
     for i, f in enumerate(sorted(secs_streams_functions, key=lambda c: (c.stream, c.function))):
         if f._data_format is None or not isinstance(f._data_format, str):
@@ -372,6 +402,7 @@ def run(ctx):
         ctx.count("enumerated.shipped_definitions")
     ctx.exhaustive["shipped_definitions"] = True
     _known_corpus(ctx, G, cat)
+    _twins(ctx, G, cat, rng, names, 30 if ctx.quick else 3000)
     n = 700 if ctx.quick else 250000
     for i in range(n):
         ast = gen_def(rng, names, rng.choice([1, 2, 3, 5]), rng.choice([2, 3, 6]))
